@@ -3,6 +3,7 @@ extern crate alloc;
 #[macro_use]
 pub mod common;
 pub mod vt;
+pub mod props;
 #[macro_use]
 pub mod catalogue;
 #[macro_use]
@@ -11,3 +12,12 @@ pub mod dtypes;
 mod c02;
 #[cfg(kani)]
 mod c01;
+#[cfg(kani)]
+mod c04;
+#[cfg(kani)]
+mod warmup {
+    kproof!(warmup, 4, {
+        let x: u8 = kani::any();
+        assert!(x as u16 <= 255);
+    });
+}
